@@ -7,6 +7,7 @@
 # when a handler finished are read from the log); the extracted model must accept every step
 # and predict the same returns / blocking / receive order / Get results / buffer lengths.
 import json
+import re
 
 from . import common, fttaskx, pure
 
@@ -422,21 +423,21 @@ def gen_random(rng, size, nprod, length, close=True, slow=True):
 
 
 def gen(rng, tier):
-    mult = 1 if tier == "quick" else 15
+    mult = 1 if tier == "quick" else 12
     out = []
     # close at every position of short histories
-    for _ in range(12 * mult):
+    for _ in range(40 * mult):
         size, nprod = rng.range(1, 3), rng.range(1, 3)
         base = gen_random(rng, size, nprod, rng.range(6, 10), close=False)
         for pos in range(len(base) + 1):
             out.append(Script(size, nprod, base[:pos] + ["C"] + base[pos:] + ["R", "R"], "close-every-position"))
-    for _ in range(250 * mult):
+    for _ in range(1200 * mult):
         size, nprod = rng.range(1, 8), rng.range(1, 4)
         out.append(Script(size, nprod, gen_random(rng, size, nprod, rng.range(8, 40)), "random"))
-    for _ in range(80 * mult):
+    for _ in range(400 * mult):
         size, nprod = rng.range(1, 2), rng.range(2, 4)
         out.append(Script(size, nprod, gen_random(rng, size, nprod, rng.range(10, 30), slow=True), "full-multi-blocked"))
-    for _ in range(60 * mult):
+    for _ in range(300 * mult):
         size, nprod = rng.range(1, 8), rng.range(1, 4)
         out.append(Script(size, nprod, gen_random(rng, size, nprod, rng.range(10, 40), slow=False), "fast-consumer"))
     return out
@@ -553,7 +554,7 @@ Definition bad := Eval vm_compute in length (filter (fun c => negb (ok c)) cases
 Print bad.
 """ % ";\n".join(items)
     out = common.run_coq_eval(body)
-    if "bad = 0%nat" not in out.replace("\n", " "):
+    if not re.search(r"bad = 0(%nat)?\s", out.replace("\n", " ") + " "):
         chk.diverge("vm_compute-vs-extraction", "sample of %d cases" % len(items), out[-300:], "", "extracted OCaml model disagrees with vm_compute")
     return len(items)
 
